@@ -188,6 +188,9 @@ func StubCalls(name string) int { return CountGet("stub:" + name) }
 func Go(name string, f func())     { go f() }
 func Yield()                       {}
 func Ticks(n int)                  {}
+
+// TicksLeft: timer deliveries left in the engine's budget (engine only; 0 natively).
+func TicksLeft() int { return 0 }
 func AllowMainBlock()              {}
 func BlockForever()                { select {} }
 func LastDoneCheckSawClosed() bool { return false }
